@@ -45,7 +45,7 @@ RECURSIVE SumNeed(_, _)
 SumNeed(stk, i) == IF i = 0 THEN 0 ELSE NeedOf(stk[i]) + SumNeed(stk, i - 1)
 Need(s) == SumNeed(s.stack, Len(s.stack)) + (IF s.stack[1].rule = "TopLevel" THEN 1 ELSE 0)
 
-Leaf == si.st = "rejected" \/ Len(hist) >= MaxLen
+Leaf == si.st = "rejected" \/ Len(hist) >= MaxLen \/ (OnlyComplete /\ Accepted(si))
 
 Next == /\ ~Leaf
         /\ \E i \in 1..Len(Alphabet) :
